@@ -16,6 +16,7 @@ pub mod c09;
 pub mod c10;
 pub mod c11;
 pub mod c12;
+pub mod c13;
 pub mod c14;
 
 /// Reference bracket: largest i <= n-2 with x[i] <= q; 0 below the range; n-2 at/above the end.
